@@ -459,6 +459,56 @@ pub fn spaces(tier: &str) -> Vec<Box<dyn Space>> {
     v.push(fam_space(family_b1(all_seeds(true, if thorough { 100_000 } else { 200 }), if thorough { 3 } else { 2 })));
     v.push(fam_space(family_b_trunc(all_seeds(true, 100_000), 2)));
     v.push(fam_space(family_d()));
+    // LARGE failing packets: the error element quotes or carries hundreds to tens of thousands of bytes
+    {
+        let sizes: Vec<usize> = vec![300, 900, 1400, 2000, 4100, 9000, 20000, 65000];
+        let ns = sizes.len() as u64;
+        v.push(super::stream::stream_gen("large-failing-packets x 8 sizes x 6 shapes", ns * 6, move |i| {
+            use crate::wire::*;
+            let n = sizes[(i % ns) as usize];
+            let body: Vec<u8> = (0..n).map(|j| fill(j / 251 + 3, j)).collect();
+            Some(match i / ns {
+                // V9 data for a template nobody defined
+                0 => vec![v9_packet(&V9Pkt::new(vec![V9Set::Data(300, body)]))],
+                // IPFIX message announcing more than the buffer holds
+                1 => {
+                    let mut b = ipfix_message(&IpfixMsg::new(vec![IpfixSet::Data(300, body)]));
+                    let l = b.len();
+                    b.truncate(l - 3);
+                    vec![b]
+                }
+                // V5 header announcing more records than follow
+                2 => {
+                    let mut b = fixed_distinct(5, 1, 2);
+                    b[2..4].copy_from_slice(&2000u16.to_be_bytes());
+                    b.extend(body);
+                    vec![b]
+                }
+                // an unknown version in front of n bytes
+                3 => {
+                    let mut b = vec![0x00, 0x06];
+                    b.extend(body);
+                    vec![b]
+                }
+                // a V9 flowset announcing more than the buffer holds, behind a decoded V5 packet
+                4 => {
+                    let mut b = fixed_distinct(5, 1, 4);
+                    let mut p = v9_packet(&V9Pkt::new(vec![V9Set::Data(300, body)]));
+                    let l = p.len();
+                    p.truncate(l - 1);
+                    b.extend(p);
+                    vec![b]
+                }
+                // V7 header announcing more records than follow
+                _ => {
+                    let mut b = fixed_distinct(7, 1, 2);
+                    b[2..4].copy_from_slice(&1200u16.to_be_bytes());
+                    b.extend(body);
+                    vec![b]
+                }
+            })
+        }).into_space(judge_calls));
+    }
     v.push(fam_space(family_e(false)));
     v.push(fam_space(family_e(true)));
     if thorough {
